@@ -181,7 +181,9 @@ func (g *zgen) snippet(lines *[]string, usesJSON *bool) {
 		add(fmt.Sprintf("定义%s：\n\t其名 = “n”\n\n\t如何叫？\n\t\t输出此\n", cls))
 		x := g.v()
 		add(fmt.Sprintf("令%s = （新建%s）", x, cls))
-		add(fmt.Sprintf("（显示：%s、%s、显示、取随机数、异常、以%s（叫）、【%s，%s】、【“物” = %s】）", x, cls, x, x, cls, x))
+		y := g.v()
+		add(fmt.Sprintf("令%s = 以%s（叫）", y, x))
+		add(fmt.Sprintf("（显示：%s、%s、显示、取随机数、异常、%s、【%s，%s】、【“物” = %s】）", x, cls, y, x, cls, x))
 		add("（显示：（新建异常：“文”））")
 	case 9: // values with no JSON form (objects of different classes, methods) inside dictionaries
 		*usesJSON = true
@@ -357,15 +359,15 @@ func (g *zgen) httpScenario(sc *c11Scenario) {
 	}
 	expr := pick(g.t, []string{
 		"当前请求 之 头部", "当前请求 之 查询参数",
-		"（当前请求 之 头部） 之 所有索引", "（当前请求 之 查询参数） 之 所有索引",
-		"（当前请求 之 查询参数） 之 所有值", "当前请求 之 路径",
+		"头 之 所有索引", "参 之 所有索引",
+		"参 之 所有值", "当前请求 之 路径",
 	})
 	mode := g.t.Draw(3)
 	switch mode {
 	case 0:
-		sc.Main = fmt.Sprintf("输入当前请求\n输出%s\n", expr)
+		sc.Main = fmt.Sprintf("输入当前请求\n令头 = 当前请求 之 头部\n令参 = 当前请求 之 查询参数\n输出%s\n", expr)
 	case 1:
-		sc.Main = fmt.Sprintf("输入当前请求\n（显示：%s）\n输出“ok”\n", expr)
+		sc.Main = fmt.Sprintf("输入当前请求\n令头 = 当前请求 之 头部\n令参 = 当前请求 之 查询参数\n（显示：%s）\n输出“ok”\n", expr)
 	case 2:
 		sc.Main = fmt.Sprintf("输入当前请求\n令R = %s\n以K、V遍历R：\n\t（显示：K、V）\n输出“done”\n", pick(g.t, []string{"当前请求 之 头部", "当前请求 之 查询参数"}))
 	}
@@ -512,6 +514,12 @@ func runC11(t *zsim.Tape, cfg *hlib.Config) *hlib.Outcome {
 	}
 	out.Keys = append(out.Keys, hlib.Hash(sc.Kind, sc.Main, fmt.Sprint(sc.Modules), fmt.Sprint(sc.Headers), fmt.Sprint(sc.Query), fmt.Sprint(sc.Exprs)))
 	sc.Sorted = ref
+	if strings.Contains(ref, "语法错误") {
+		// a scenario that does not even parse exercises nothing: count it, and fail loudly if
+		// the generator produces many of them (see the driver's evidence / selftest)
+		out.Note["scenarios-with-syntax-error(generator defect)"]++
+		out.Trivial = true
+	}
 	if strings.Contains(ref, "panic=\"") && !strings.Contains(ref, "panic=\"\"") {
 		// a host panic is C10's business; determinism is still checked below
 		out.Note["panic-seen"]++
